@@ -374,7 +374,12 @@ class SymVC:
 
     def lemma(self, name, cond):
         """prove `cond` as its own obligation under the current hypotheses, then use it"""
-        self.ensures("lemma." + name, cond)
+        if len(name) > 4 and name[0] == "C" and name[3] == "/":
+            if name[:3] != self.cdef.prop:
+                return          # a lemma of another property's run: neither proved nor used here
+            self.ensures(name[:4] + "lemma." + name[4:], cond)
+        else:
+            self.ensures("lemma." + name, cond)
         self.c.assume(cond)
 
     def unchanged(self, name, x, before):
